@@ -27,7 +27,7 @@ def run(ctx):
     progs = list(corpus.all_programs())      # multi-module ones are recognised by their dump and skipped
     gen = cf_programs(ctx, ctx.n(120, 2000))
     progs += gen
-    dup = twin.duplabel_cases(ctx.rng("duplabel"), ctx.n(20, 200))
+    dup = twin.duplabel_cases(ctx.rng("duplabel"), ctx.n(20, 200)) + twin.first_instruction_cases() + twin.foreign_escape_cases()
     progs += dup
     items = [(PROP, name, files, entry, True, avoid) for name, files, entry in progs]
     cov = twin.collect_programs(PROP, out, items, sig_of)
